@@ -33,6 +33,7 @@ type OpRec struct {
 	Flag bool   `json:"flag,omitempty"`
 	Opts *Opts  `json:"opts,omitempty"`
 	// poke (closed store only): overwrite bytes of the index file (File = "idx") or of data file number B (File = "dat")
+	// stash (closed store only): move data file number B from the main directory into oldat/
 	File string `json:"file,omitempty"`
 	Pos  int64  `json:"pos,omitempty"`
 	Hex  string `json:"hex,omitempty"`
@@ -42,6 +43,9 @@ type History struct {
 	Name   string      `json:"name"`
 	Blocks []BlockSpec `json:"blocks"`
 	Ops    []OpRec     `json:"ops"`
+	// Expect (corpus histories): histogram keys that running this history MUST reach (e.g. "get:snappy",
+	// "reopen:restored-from-oldat"); a corpus file that silently stops reaching its branch is reported
+	Expect []string `json:"expect,omitempty"`
 }
 
 var kinds = []string{"rand", "zero", "rep", "text", "mixed", "mixed", "far"}
